@@ -206,6 +206,9 @@ func scanStringLiteralToken(buf string, pos int) Token {
 			}
 			c2 := buf[pos+i]
 			bb.WriteByte(c2)
+		} else if c == '\n' {
+			// a Go interpreted string literal can not contain a raw newline.
+			bb.WriteString("\\n")
 		} else {
 			bb.WriteByte(c)
 		}
